@@ -987,6 +987,19 @@ func (r *Resolver) funcValues(v ssa.Value, seen map[ssa.Value]bool) (fns []*ssa.
 		if !found {
 			unknown = true
 		}
+	case *ssa.Lookup, *ssa.Extract:
+		// an entry of a package-level table of functions (`taskFields["src_name"]`, `f, ok := taskFields[name]`)
+		entries, key, isConst, ok := funcTableOf(v)
+		if !ok {
+			unknown = true
+			return
+		}
+		for k, f := range entries {
+			if !isConst || k == key {
+				fns = append(fns, f)
+			}
+		}
+		sortFuncs(fns)
 	case *ssa.Slice:
 		add(r.funcValues(x.X, seen))
 	case *ssa.Alloc:
